@@ -61,6 +61,23 @@ def modelExt : Ext :=
   { subgroupOk := subgroupOkModel, sqrtModP := NT.squareRootModPrime, pubPoint := pubPointModel,
     b64decode := b64decodeCPython }
 
+/-- what `point.x()`, `point.y()` report for a point OBJECT (value of `Model/Curve.lean`): a legacy `Point` stores them, a
+`PointJacobi` computes them from (X, Y, Z) (`Curve.pjX` / `pjY`: an inversion of Z when Z ≠ 1); `INFINITY` has none and is
+refused with `MalformedPointError` (F14) -/
+def pointCoords : Curve.Pt → Res (Int × Int)
+  | .infinity => .error .malformedPoint
+  | .aff A => .ok (A.x, A.y)
+  | .jac P => do
+    let x ← Curve.pjX P
+    let y ← Curve.pjY P
+    .ok (x, y)
+
+/-- `VerifyingKey.from_public_point(point, curve, validate_point)` on a point object of the point-arithmetic model -/
+def fromPublicPointPt (E : Ext) (c : Curve) (pt : Curve.Pt) (validate : Bool) : Res VK :=
+  match pointCoords pt with
+  | .error e => .error e
+  | .ok (x, y) => fromPublicPoint E c x y validate
+
 def parseSqrt (t : String) : Option (Int → Int → Res Int) :=
  if t = "m" then some NT.squareRootModPrime
   else if t = "-" then some fun _ _ => .error .other
@@ -155,6 +172,10 @@ def handle (toks : List String) : Option String :=
   | ["point_is_valid", c, x, y, sub] => do
       let c ← parseCurve c; let x ← parseInt x; let y ← parseInt y; let E ← mkExt "-" sub "-"
       some ("ok " ++ (if pointIsValid E c x y then "1" else "0"))
+  | ["vk_from_public_point_jac", c, p, a, b, x, y, z, v, sub] => do
+      let c ← parseCurve c; let p ← parseInt p; let a ← parseInt a; let b ← parseInt b
+      let x ← parseInt x; let y ← parseInt y; let z ← parseInt z; let v ← parseBool v; let E ← mkExt "-" sub "-"
+      some (res showVK (fromPublicPointPt E c (.jac ⟨⟨p, a, b, none⟩, x, y, z, none, false⟩) v))
   | ["vk_from_public_point", c, "inf", "inf", v, sub] => do
       let c ← parseCurve c; let v ← parseBool v; let E ← mkExt "-" sub "-"
       some (res showVK (fromPublicPointObj E c none v))
